@@ -129,22 +129,31 @@ Qed.
 Lemma get_attr_dyn n : get_attr dyn_val n = (dyn_val, []).
 Proof. reflexivity. Qed.
 
-Lemma index_dyn k : fst (index dyn_val k) = dyn_val.
+(* The keys of a static traversal are literals of the source text: they carry no marks.
+   (hcl.Index gives a DynamicVal result the marks of the key, so this matters below.) *)
+Definition step_unmarked (s : step) : bool :=
+  match s with SIndex k => match marks_of k with [] => true | _ => false end | SAttr _ => true end.
+Definition keys_unmarked (steps : list step) : bool := forallb step_unmarked steps.
+
+Lemma index_dyn k : marks_of k = [] -> fst (index dyn_val k) = dyn_val.
 Proof.
-  unfold index. change (is_null dyn_val) with false. cbv iota.
+  intros Hk. unfold index. change (is_null dyn_val) with false. cbv iota.
   destruct (is_null k); [reflexivity|].
   change (type_of dyn_val) with TDyn.
-  rewrite orb_true_r. reflexivity.
+  rewrite orb_true_r. unfold with_same_marks. rewrite Hk. reflexivity.
 Qed.
 
 (* once the value is cty.DynamicVal it stays cty.DynamicVal *)
-Lemma traverse_rel_dyn steps : forall acc, fst (traverse_rel steps dyn_val acc) = dyn_val.
+Lemma traverse_rel_dyn steps : keys_unmarked steps = true ->
+  forall acc, fst (traverse_rel steps dyn_val acc) = dyn_val.
 Proof.
-  induction steps as [|s r IH]; intros acc; simpl; [reflexivity|].
+  induction steps as [|s r IH]; intros HK acc; simpl; [reflexivity|].
+  simpl in HK. apply andb_true_iff in HK as [Hs Hr].
   destruct s as [n|k].
-  - rewrite get_attr_dyn. simpl. apply IH.
-  - pose proof (index_dyn k) as H. destruct (index dyn_val k) as [v' ds]. simpl in H. subst v'.
-    destruct (has_errors ds); [reflexivity|apply IH].
+  - rewrite get_attr_dyn. simpl. apply IH, Hr.
+  - assert (Hk : marks_of k = []) by (simpl in Hs; destruct (marks_of k); [reflexivity|discriminate]).
+    pose proof (index_dyn k Hk) as H. destruct (index dyn_val k) as [v' ds]. simpl in H. subst v'.
+    destruct (has_errors ds); [reflexivity|apply IH, Hr].
 Qed.
 
 Lemma traverse_abs_error_dyn c root steps :
@@ -199,20 +208,22 @@ Theorem traversal_agrees :
   forall e root steps,
   as_traversal e = Some (root, steps) ->
   trav_shape_of e = Some ShPlain ->
+  keys_unmarked steps = true ->
   forall (c : ctx) (anon : option val) (fuel : nat),
   (trav_depth e < fuel)%nat ->
   agrees (eval fuel c anon e) (traverse_abs c root steps).
 Proof.
-  induction e; intros root0 steps0 HT HS c anon fuel HF; simpl in HT, HS; try discriminate.
+  induction e; intros root0 steps0 HT HS HK c anon fuel HF; simpl in HT, HS; try discriminate.
   - (* ScopeTraversalExpr *)
     injection HT as Hr Hs. subst root0 steps0. destruct fuel as [|f]; [simpl in HF; lia|].
     rewrite eval_scope. split; reflexivity.
   - (* RelativeTraversalExpr *)
     destruct (as_traversal e) as [[r st]|] eqn:E; [|discriminate].
     injection HT as Hr Hs. subst root0 steps0.
+    unfold keys_unmarked in HK. rewrite forallb_app in HK. apply andb_true_iff in HK as [HKst HKsteps].
     destruct fuel as [|f]; [simpl in HF; lia|]. simpl in HF.
     assert (HF' : (trav_depth e < f)%nat) by lia.
-    specialize (IHe r st eq_refl HS c anon f HF').
+    specialize (IHe r st eq_refl HS HKst c anon f HF').
     rewrite eval_reltrav, traverse_abs_app.
     destruct IHe as [Hv He].
     destruct (eval f c anon e) as [v ds]. simpl in Hv, He.
@@ -220,7 +231,7 @@ Proof.
     + (* the source fails: both yield DynamicVal with errors *)
       pose proof (traverse_abs_error_dyn c r st HE) as Hd.
       rewrite Hd in Hv. subst v.
-      pose proof (traverse_rel_dyn steps []) as Hr.
+      pose proof (traverse_rel_dyn steps HKsteps []) as Hr.
       destruct (traverse_rel steps dyn_val []) as [r' ds']. simpl in Hr. subst r'.
       split; simpl.
       * symmetry. exact Hd.
@@ -239,9 +250,10 @@ Proof. induction e; simpl; lia. Qed.
 Corollary traversal_agrees_value :
   forall e root steps,
   as_traversal e = Some (root, steps) -> trav_shape_of e = Some ShPlain ->
+  keys_unmarked steps = true ->
   forall c, agrees (value c e) (traverse_abs c root steps).
 Proof.
-  intros e root steps HT HS c. unfold value.
+  intros e root steps HT HS HK c. unfold value.
   apply traversal_agrees; auto. apply trav_depth_size.
 Qed.
 
@@ -250,6 +262,7 @@ Theorem traversal_agrees_abs :
   forall e root steps,
   abs_traversal_for_expr e = Some (root, steps) ->
   trav_shape_of e = Some ShPlain ->
+  keys_unmarked steps = true ->
   forall (c : ctx) (anon : option val) (fuel : nat),
   (trav_depth e < fuel)%nat ->
   fst (eval fuel c anon e) = fst (traverse_abs c root steps) /\
@@ -263,6 +276,7 @@ Theorem traversal_agrees_value_abs :
   forall e root steps,
   abs_traversal_for_expr e = Some (root, steps) ->
   trav_shape_of e = Some ShPlain ->
+  keys_unmarked steps = true ->
   forall c : ctx,
   fst (value c e) = fst (traverse_abs c root steps) /\
   has_errors (snd (value c e)) = has_errors (snd (traverse_abs c root steps)).
